@@ -355,6 +355,10 @@ def _run(prop, tier, only, jobs, seed, scratch, t0):
                    'cube': q.cubes[t['cube_idx']], 'args': c['args'], 'text': c['text'],
                    'kind': 'solver-counterexample', 'tree': digest}
             cex_records.append((rec, write_record(prop, rec)))
+        elif v == 'vacuous' and '_fixed' in q.cubes[t['cube_idx']] and q.pre:
+            # a split valuation that contradicts the query's own precondition: an empty cube, nothing to decide
+            pq['confirmed'] += 1
+            pq['empty_cubes'] = pq.get('empty_cubes', 0) + 1
         elif v == 'inconclusive':
             pq['inconclusive'] += 1
             inconclusive.append('%s cube %d (%s paths explored, budget %ss)' % (q.name, t['cube_idx'], res.get('paths'), t['timeout']))
@@ -376,6 +380,9 @@ def _run(prop, tier, only, jobs, seed, scratch, t0):
                                   % (rec['query'], path, rec['text'], text))
 
     # -- evidence
+    for qn, pq in per_query.items():
+        if pq.get('empty_cubes', 0) >= pq['cubes']:
+            harness_errors.append('query %s: every cube is empty (precondition unsatisfiable)' % qn)
     exhaustive = (not inconclusive and not harness_errors and not violations
                   and all(pq['confirmed'] == pq['cubes'] for pq in per_query.values()))
     n_paths = sum(pq['paths'] for pq in per_query.values())
